@@ -43,7 +43,7 @@ def ok_blocks(fn, kinds=("ok",)):
     return sorted(bb for bb, k, _ in fn.exits() if k in kinds)
 
 
-def success_paths(fn, targets=None, max_paths=3000, kinds=("ok",), feasible_only=True):
+def success_paths(fn, targets=None, max_paths=3000, kinds=("ok",), feasible_only=True, track_places=False):
     """All acyclic paths entry -> one of `targets` (default: the blocks constructing the Ok/Some return value)
     on the normal CFG, visiting only blocks from which a target is reachable.
     Returns list of dict(blocks, conds=[(E, label, ty)], target, ret=E)."""
@@ -106,7 +106,7 @@ def success_paths(fn, targets=None, max_paths=3000, kinds=("ok",), feasible_only
         # never analyse a truncated path set silently (fail closed: the caller's ctx.guard turns this into a violation)
         raise RuntimeError("success_paths(%s): more than %d paths — enumeration truncated" % (fn.short, max_paths))
     for p in out:
-        ev = PathEval(fn, p["blocks"])
+        ev = PathEval(fn, p["blocks"], track_places)
         p["ev"] = ev
         p["conds"] = [(ev.switch_cond(b), l, ty) for (b, l, ty) in p["conds"]]
         p["ret"] = ev.ret()
@@ -196,8 +196,10 @@ class PathEval:
     flow-insensitive `expr` beyond nesting depth 30, which `?`-heavy functions exceed).  Same conventions as
     Fn.expr: references / clone / into / deref are transparent; an operand of a call is the value at the call."""
 
-    def __init__(self, fn, blocks):
+    def __init__(self, fn, blocks, track_places=False):
         self.fn = fn
+        self.track = track_places
+        self._stores = None
         self.blocks = list(blocks)
         self.pos = {}
         for i, b in enumerate(self.blocks):
@@ -225,7 +227,7 @@ class PathEval:
             e = fn.local_expr(n)
             for p in projs:
                 e = fn._project(e, p)
-            return e
+            return self._tracked(e, projs, at, si, _stack)
         key = (n, tuple(projs), at, si)
         if key in self.memo:
             return self.memo[key]
@@ -246,8 +248,43 @@ class PathEval:
             rest = np[k:]
         for p in rest:
             e = fn._project(e, p)
+        e = self._tracked(e, projs, at, si, _stack)
         self.memo[key] = e
         return e
+
+    # -- optional: reads of a place that was stored to earlier on the path (through a pointer / field of a parameter)
+    def _store_list(self):
+        if self._stores is None:
+            self._stores = []          # guard against re-entrance while building
+            acc = []
+            for i, bb in enumerate(self.blocks):
+                for si, st in enumerate(self.fn.blocks[bb]["s"]):
+                    if st[0] != "=" or len(st[1]) < 2:
+                        continue
+                    pl = st[1]
+                    if not any(p.startswith(".") for p in pl[1:]):
+                        continue
+                    base = self.op([pl[0]], i, si)
+                    d = base
+                    for pr in pl[1:]:
+                        d = self.fn._project(d, pr)
+                    acc.append((i, si, str(d), st[2]))
+            self._stores = acc
+        return self._stores
+
+    def _tracked(self, e, projs, at, si, _stack):
+        if not self.track or e.k != "field" or not any(p.startswith(".") for p in projs):
+            return e
+        s = str(e)
+        best = None
+        for (i, sj, ds, rv) in self._store_list():
+            if (i, sj) >= (at, si):
+                break
+            if ds == s:
+                best = (i, sj, rv)
+        if best is None or ("place", s, best[0], best[1]) in _stack:
+            return e
+        return self.rv(best[2], best[0], best[1], _stack + (("place", s, best[0], best[1]),))
 
     def rv(self, rv, at, si, _stack=()):
         fn = self.fn
@@ -312,7 +349,7 @@ LIN_ADD = {"CheckedAdd::checked_add", "Unsigned::checked_add_with_signed"}
 LIN_SUB = {"CheckedSub::checked_sub", "Unsigned::checked_sub_with_signed"}
 LIN_NEG = {"CheckedNeg::checked_neg", "Unsigned::to_opposite_signed", "Neg::neg"}
 LIN_ID = {"Unsigned::to_signed", "Option::ok_or", "Option::ok_or_else", "Result::map_err", "TryInto::try_into",
-          "TryFrom::try_from"}
+          "TryFrom::try_from", "Option::expect", "Result::expect", "Option::unwrap", "Result::unwrap"}
 LIN_ZERO = {"Zero::zero"}
 ABS = {"UnsignedAbs::unsigned_abs"}
 
@@ -422,3 +459,183 @@ def delta_sides(e, side_re):
     if nm == "Delta::new_with_short" and len(args) == 1:
         return {"false": args[0]}
     return None
+
+
+# ------------------------------------------------------------------ pool effects along a path (token ledger)
+
+_POOL_OF_RECV = re.compile(r"(?:^|::)(\w+?)_pool_mut\(")
+
+
+def pool_effects(fn, path):
+    """Token-ledger effects executed on the path, in order: list of dict(pool, side=E, amount=E, mult=+1|-1, cs, why).
+    Recognised primitives (bodies checked by the C08 rule `conserve:primitive:*`):
+      BaseMarketMutExt::apply_delta(m, side, d)                        liquidity[side] += d
+      BaseMarketMutExt::apply_delta_to_claimable_fee_pool(m, side, d)  claimable_fee[side] += d
+      PoolExt::apply_delta_amount(<x>_pool_mut(..)?, side, d)          <x>[side] += d
+      SwapMarketMutExt::apply_swap_impact_value_with_cap(m, side, price, usd) -> r
+                                                                       swap_impact[side] -= r if usd > 0, += r if usd < 0
+    Unknown sign / receiver -> entry with pool=None (callers must fail closed)."""
+    ev = path["ev"]
+    out = []
+    for c in path["calls"]:
+        sh = c.short
+        if sh == "BaseMarketMutExt::apply_delta":
+            a = ev.call_args(c)
+            out.append({"pool": "liquidity", "side": a[1], "amount": a[2], "mult": 1, "cs": c})
+        elif sh == "BaseMarketMutExt::apply_delta_to_claimable_fee_pool":
+            a = ev.call_args(c)
+            out.append({"pool": "claimable_fee", "side": a[1], "amount": a[2], "mult": 1, "cs": c})
+        elif sh == "PoolExt::apply_delta_amount":
+            a = ev.call_args(c)
+            m = _POOL_OF_RECV.search(str(a[0]))
+            out.append({"pool": m.group(1) if m else None, "side": a[1], "amount": a[2], "mult": 1, "cs": c, "recv": a[0]})
+        elif sh == "SwapMarketMutExt::apply_swap_impact_value_with_cap":
+            a = ev.call_args(c)
+            usd = str(a[3])
+            mult = None
+            for cond, lab, ty in path["conds"]:
+                if ty == "bool" and cond.k == "call" and len(cond.a[1]) == 1 and str(cond.a[1][0]) == usd:
+                    taken = isinstance(lab, tuple) or lab != 0
+                    if cond.a[0] == "Signed::is_positive" and taken:
+                        mult = -1
+                    if cond.a[0] == "Signed::is_negative" and taken:
+                        mult = 1
+            out.append({"pool": "swap_impact" if mult is not None else None, "side": a[1], "amount": ev.call_value(c), "mult": mult or 1, "cs": c})
+    return out
+
+
+def impossible_sign_path(path):
+    """A path that takes the true edge of is_positive/is_negative on a literal zero cannot execute."""
+    for cond, lab, ty in path["conds"]:
+        if ty == "bool" and cond.k == "call" and cond.a[0] in ("Signed::is_positive", "Signed::is_negative") and \
+                len(cond.a[1]) == 1 and str(cond.a[1][0]) == "Zero::zero()" and (isinstance(lab, tuple) or lab != 0):
+            return True
+    return False
+
+
+def ledger(effects, side_re, lin, pools=None):
+    """Sum the effects per side shape ('S', '!S', 'true', 'false'); returns ({shape: Lin}, problems)."""
+    tot = {}
+    bad = []
+    for e in effects:
+        if pools is not None and e["pool"] not in pools:
+            if e["pool"] is None:
+                bad.append("unclassified effect %s" % e["cs"].short)
+            continue
+        if e["pool"] is None:
+            bad.append("unclassified effect %s" % e["cs"].short)
+            continue
+        s = side_shape(e["side"], side_re)
+        if s is None:
+            bad.append("%s: side %s is not derived from the side flag" % (e["cs"].short, str(e["side"])[:60]))
+            continue
+        tot[s] = tot.get(s, Lin()).add(lin(e["amount"]), e["mult"])
+    return tot, bad
+
+
+# ------------------------------------------------------------------ inlining linear evaluator (small pure helpers)
+
+
+def _render(e, subst):
+    k = e.k
+    if k == "param":
+        return subst.get(e.a[1], e.a[1] or "_%d" % e.a[0])
+    if k == "upvar":
+        return subst.get("^" + e.a[0], subst.get(e.a[0], e.a[0]))   # a capture has its parent's name
+    if k == "try":
+        return _render(e.a[0], subst)
+    if k == "field":
+        return "%s.%s" % (_render(e.a[0], subst), e.a[1])
+    if k == "variant":
+        return "%s@%s" % (_render(e.a[0], subst), e.a[1])
+    if k == "call":
+        return "%s(%s)" % (e.a[0].split("::")[-1], ", ".join(_render(x, subst) for x in e.a[1]))
+    return str(e)
+
+
+def sym_lin(prog, e, subst=None, choose=None, inline_re=r"^gmsol_model::params::fee::", depth=0):
+    """Linear form of `e` where calls into small pure local functions (id matching inline_re; one chosen success path,
+    no loops) and `and_then(x, closure)` combinators are evaluated by substitution instead of being opaque.
+    subst: name -> rendered atom (str) or Lin for parameters / upvars; choose(path)->bool selects the callee/closure path
+    when several exist (e.g. the liquidation Some/None case). Atoms are rendered access paths."""
+    subst = subst or {}
+    k = e.k
+
+    def rec(x, s=subst):
+        return sym_lin(prog, x, s, choose, inline_re, depth + 1)
+
+    if depth > 40:
+        return Lin({_render(e, {n: v for n, v in subst.items() if isinstance(v, str)}): 1})
+    if k == "try":
+        return rec(e.a[0])
+    if k == "agg" and (e.a[0].endswith("::Ok") or e.a[0].endswith("::Some")) and len(e.a[1]) == 1:
+        return rec(e.a[1][0][1])
+    if k in ("param", "upvar"):
+        nm = e.a[1] if k == "param" else "^" + e.a[0]
+        v = subst.get(nm, subst.get(nm.lstrip("^")))
+        if isinstance(v, Lin):
+            return Lin(v)
+    if k == "const" and e.a[0] == "0":
+        return Lin()
+    if k == "call":
+        nm, args = e.a[0], e.a[1]
+        if nm in LIN_ADD and len(args) == 2:
+            return rec(args[0]).add(rec(args[1]))
+        if nm in LIN_SUB and len(args) == 2:
+            return rec(args[0]).add(rec(args[1]), -1)
+        if nm in LIN_NEG and len(args) == 1:
+            return rec(args[0]).scale(-1)
+        if nm in LIN_ID and len(args) >= 1:
+            return rec(args[0])
+        if nm in LIN_ZERO and not args:
+            return Lin()
+        if nm in ("Option::and_then", "Result::and_then", "Option::map") and len(args) == 2 and args[1].k == "closure":
+            cf = prog.fns.get(args[1].a[0])
+            if cf is not None:
+                x = rec(args[0])
+                pname = cf.locals[cf.arg_count][1] if cf.arg_count >= 1 else None   # last argument = closure parameter
+                s2 = dict(subst)
+                # upvars of the closure keep the caller's names (^self -> self)
+                for n, v in subst.items():
+                    s2["^" + n.lstrip("^")] = v
+                if pname:
+                    s2[pname] = x
+                ps = [p for p in success_paths(cf, kinds=("ok", "unknown")) if choose is None or choose(p) is not False]
+                vals = []
+                for p in ps:
+                    v = sym_lin(prog, p["ret"], s2, choose, inline_re, depth + 1)
+                    if v not in vals:
+                        vals.append(v)
+                if len(vals) == 1:
+                    return vals[0]
+        cs = e.a[2] if len(e.a) > 2 else None
+        target = None
+        if cs is not None:
+            for nmx in (cs.resolved, cs.callee):
+                if nmx and nmx in prog.fns and re.search(inline_re, nmx):
+                    target = prog.fns[nmx]
+                    break
+        if target is not None:
+            argl = [rec(a) for a in args]
+            s2 = {}
+            okb = True
+            for i in range(target.arg_count):
+                pn = target.locals[i + 1][1]
+                if pn is None or i >= len(argl):
+                    okb = False
+                    break
+                a = argl[i]
+                if len(a) == 1 and list(a.values()) == [1]:
+                    s2[pn] = list(a)[0]
+                else:
+                    s2[pn] = a
+            if okb:
+                ps = [p for p in success_paths(target, kinds=("ok", "unknown"), max_paths=64) if choose is None or choose(p) is not False]
+                vals = []
+                for p in ps:
+                    v = sym_lin(prog, p["ret"], s2, choose, inline_re, depth + 1)
+                    if v not in vals:
+                        vals.append(v)
+                if len(vals) == 1:
+                    return vals[0]
+    return Lin({_render(e, {n: v for n, v in subst.items() if isinstance(v, str)}): 1})
